@@ -247,7 +247,7 @@ Qed.
 
 Lemma step_inv s l : inv s -> inv (fst (step s l)).
 Proof.
-  intros (Hq & Ht). destruct l as [v| | |i|i|i]; simpl.
+  intros (Hq & Ht). destruct l as [v| | |i|i|i|v]; simpl.
   - destruct (do_add (sq s) v) as [q'|] eqn:E; simpl; [|split; assumption].
     destruct (do_add_ok _ _ _ Hq E) as (Hq' & He & _). split; [assumption|].
     intros i. simpl. rewrite wake_all_eq. eapply thr_ext_wake; eauto.
@@ -270,6 +270,7 @@ Proof.
     + rewrite upd_other by assumption. apply Ht.
   - destruct (run_iter (sq s) (its s) i) as [f ev] eqn:E. simpl.
     split; [assumption|]. pose proof (run_iter_ok (sq s) (its s) i Hq Ht) as (H & _). rewrite E in H. exact H.
+  - split; assumption.
 Qed.
 
 Lemma reach_inv s : reach s -> inv s.
@@ -280,7 +281,7 @@ Proof. induction 1; [apply inv_s0|apply step_inv; assumption]. Qed.
 Lemma step_no_panic s l : inv s ->
   snd (step s l) <> EvPanicOp /\ forall i, snd (step s l) <> EvRes i RPanic.
 Proof.
-  intros (Hq & Ht). destruct l as [v| | |i|i|i]; simpl.
+  intros (Hq & Ht). destruct l as [v| | |i|i|i|v]; simpl.
   - destruct (do_add (sq s) v); simpl; split; try intros j; discriminate.
   - destruct (Nat.eqb_spec (qlen (sq s)) 0); simpl; [split; try intros j; discriminate|].
     destruct (pop_front_ok _ Hq n) as (q' & v & E & _). rewrite E. simpl. split; try intros j; discriminate.
@@ -291,6 +292,7 @@ Proof.
     pose proof (run_iter_ok (sq s) (its s) i Hq Ht) as (_ & H). rewrite E in H. simpl in H.
     split; [|exact H]. unfold run_iter, check in E.
     repeat (match type of E with context [match ?x with _ => _ end] => destruct x end; try (inv E; discriminate)).
+  - split; try intros j; discriminate.
 Qed.
 
 Lemma no_crash s i : inv s -> ipc (its s i) <> Crashed.
@@ -457,7 +459,7 @@ Proof. unfold wake1. destruct (ipc t); reflexivity. Qed.
 Lemma step_history s l i :
   yielded (its (fst (step s l)) i) = yielded (its s i) ++ yields_of i (snd (step s l)).
 Proof.
-  destruct l as [v| | |k|k|k]; simpl.
+  destruct l as [v| | |k|k|k|v]; simpl.
   - destruct (do_add (sq s) v); simpl; rewrite ?wake_all_eq, ?wake1_yielded, app_nil_r; reflexivity.
   - destruct (Nat.eqb (qlen (sq s)) 0); simpl; [now rewrite app_nil_r|].
     destruct (pop_front (sq s)) as [[q' v]|]; simpl; rewrite ?wake_all_eq, ?wake1_yielded, app_nil_r; reflexivity.
@@ -472,6 +474,7 @@ Proof.
       inv E; simpl; rewrite ?wake_all_eq, ?wake1_yielded; unfold upd;
       destruct (Nat.eqb_spec i k); subst; simpl; rewrite ?Nat.eqb_refl, ?app_nil_r; try reflexivity;
       try (destruct (Nat.eqb_spec k i); [congruence|]); rewrite ?app_nil_r; reflexivity.
+  - now rewrite app_nil_r.
 Qed.
 
 Lemma run_history ls : forall s i,
@@ -529,7 +532,7 @@ Qed.
 Lemma closed_stable s l : inv s -> closed (sq s) = true ->
   closed (sq (fst (step s l))) = true /\ added (sq (fst (step s l))) = added (sq s).
 Proof.
-  intros (Hq & _) Hc. destruct l as [v| | |i|i|i]; simpl.
+  intros (Hq & _) Hc. destruct l as [v| | |i|i|i|v]; simpl.
   - unfold do_add. rewrite Hc. simpl. auto.
   - destruct (Nat.eqb_spec (qlen (sq s)) 0); simpl; [auto|].
     destruct (pop_front_ok _ Hq n) as (q' & v & E & _ & _ & Hc' & _). rewrite E. simpl.
@@ -538,6 +541,16 @@ Proof.
   - auto.
   - destruct (ipc (its s i)); simpl; auto.
   - destruct (run_iter (sq s) (its s) i). simpl. auto.
+  - auto.
+Qed.
+
+(* an Add that is rejected (by the tracker, or because the queue is closed) is invisible: nothing is
+   allocated or linked, no iterator can ever yield its value or be moved by it *)
+Lemma rejected_add_invisible s v :
+  step s (LAddRej v) = (s, EvAdd false) /\
+  (closed (sq s) = true -> step s (LAdd v) = (s, EvAdd false)).
+Proof.
+  split; [reflexivity|]. intros Hc. simpl. unfold do_add. rewrite Hc. reflexivity.
 Qed.
 
 Lemma eof_after_close s i : inv s -> closed (sq s) = true ->
